@@ -868,17 +868,74 @@ Proof.
   destruct o; try exact S. eapply steps_trans; [exact S | apply IH].
 Qed.
 
+(* ---------------------------------------------------------------- the final revalidation of links *)
+Lemma in_link_cands s R p t : In (p, t) (link_cands s R) -> underb R p = true /\ p <> [] /\ In (p, NSym t) (nodes s).
+Proof.
+  unfold link_cands. rewrite in_flat_map. intros [[q n] [I H]]. cbn [fst snd] in H.
+  destruct n as [| i | t' |]; try contradiction.
+  destruct (underb R q) eqn:U; [|contradiction]. destruct (eqb_spec q R) as [E|NE]; [contradiction|].
+  cbn in H. destruct H as [[= <- <-]|[]]. split; [exact U|]. split; [|exact I].
+  intros ->. apply underb_under in U. destruct U as [x E]. destruct x; destruct R; try discriminate. congruence.
+Qed.
+
+Lemma remove_all_steps R : forall l s,
+  (forall e, In e l -> underb R (fst e) = true /\ fst e <> []) -> steps R s (remove_all s l).
+Proof.
+  induction l as [|e l IH]; intros s H; [apply steps_refl|]. unfold remove_all. cbn [fold_left].
+  destruct (H e (or_introl eq_refl)) as [U NE].
+  eapply steps_cons; [apply prim_del; [exact NE | apply underb_under; exact U]|].
+  apply IH. intros e' I. apply H. right. exact I.
+Qed.
+
+Lemma leaving_in_cands s R l e : leaving s R = Some l -> In e l -> In e (link_cands s R).
+Proof.
+  unfold leaving. destruct (forallb _ _); [|discriminate]. intros [= <-] I. apply filter_In in I. tauto.
+Qed.
+
+Lemma cleanup_spec R before : forall fuel s removed s2 b,
+  cleanup fuel s R before removed = Some (s2, b) ->
+  steps R s s2 /\ exists after, leaving s2 R = Some after /\ forall e, In e after -> In e before.
+Proof.
+  induction fuel as [|fuel IH]; intros s removed s2 b C; [discriminate|]. cbn [cleanup] in C.
+  destruct (leaving s R) as [l|] eqn:L; [|discriminate].
+  destruct (List.filter (fun e => negb (memb e before)) l) as [|e0 fresh] eqn:F.
+  - injection C as <- <-. split; [apply steps_refl|]. exists l. split; [exact L|].
+    intros e I. destruct (memb e before) eqn:M; [apply memb_In; exact M|].
+    assert (In e (List.filter (fun e => negb (memb e before)) l)) by (apply filter_In; split; [exact I | rewrite M; reflexivity]).
+    rewrite F in H. contradiction.
+  - destruct (IH _ _ _ _ C) as [S2 P]. split; [|exact P].
+    eapply steps_trans; [|exact S2]. apply remove_all_steps. intros e I.
+    assert (I' : In e l) by (rewrite <- F in I; apply filter_In in I; tauto).
+    destruct e as [q t]. destruct (in_link_cands s R q t (leaving_in_cands s R l _ L I')) as [U [NE _]]. auto.
+Qed.
+
+Theorem untar_effects_inside R ms s : steps R s (snd (untar R ms s)).
+Proof.
+  unfold untar. destruct (leaving s R) as [before|]; [|apply steps_refl].
+  pose proof (untar_from_repaired_steps ms R ms s 0) as S1. unfold untar_gen.
+  destruct (untar_from Repaired ms R s ms 0) as [o s1]. cbn [snd] in S1.
+  destruct (cleanup (S (List.length (nodes s1))) s1 R before false) as [[s2 b]|] eqn:C; cbn [snd]; [|exact S1].
+  eapply steps_trans; [exact S1|]. eapply cleanup_spec; eauto.
+Qed.
+
 (* C18, safety: whatever the archive and whatever the outcome, nothing outside R changes *)
 Theorem untar_confined R ms s :
   Good R s ->
   outside_same R s (snd (untar R ms s)) /\ Good R (snd (untar R ms s)).
-Proof.
-  intros G. apply steps_safe; [|exact G]. apply untar_from_repaired_steps.
-Qed.
+Proof. intros G. apply steps_safe; [apply untar_effects_inside | exact G]. Qed.
 
-(* every effect is located at or beneath R (a stronger, structural form of confinement) *)
-Theorem untar_effects_inside R ms s : steps R s (snd (untar R ms s)).
-Proof. apply untar_from_repaired_steps. Qed.
+(* C18, links: after untar_file — extracted, refused or failed alike — every symbolic link below R that
+   resolves outside R was there before, with the same text, and already resolved outside R *)
+Theorem untar_links_stay R ms s before :
+  leaving s R = Some before ->
+  fst (untar R ms s) <> OFuel ->
+  exists after, leaving (snd (untar R ms s)) R = Some after /\ forall e, In e after -> In e before.
+Proof.
+  unfold untar. intros -> NF. unfold untar_gen in *.
+  destruct (untar_from Repaired ms R s ms 0) as [o s1].
+  destruct (cleanup (S (List.length (nodes s1))) s1 R before false) as [[s2 b]|] eqn:C; cbn [fst snd] in *; [|congruence].
+  eapply cleanup_spec; eauto.
+Qed.
 
 (* ================================================================ a decision procedure for [Good] on concrete states *)
 Definition goodb (R : rpath) (s : state) : bool :=
@@ -1324,6 +1381,77 @@ Section Benign3.
   Qed.
 End Benign3.
 
+(* ---------------------------------------------------------------- benign members leave the links alone *)
+Lemma insert_absent {K V} `{EqDec K} (k : K) (v : V) (m : al K V) : lookup k m = None -> insert k v m = m ++ [(k, v)].
+Proof.
+  induction m as [|[k' v'] m IH]; cbn; [reflexivity|].
+  destruct (eqb k k'); [discriminate|]. intros E. rewrite IH by exact E. reflexivity.
+Qed.
+
+Lemma filter_known_nil {A} `{EqDec A} (l l0 : list A) :
+  (forall e, In e l -> In e l0) -> List.filter (fun e => negb (memb e l0)) l = [].
+Proof.
+  induction l as [|e l IH]; intros Hl; [reflexivity|]. cbn [List.filter].
+  rewrite (proj2 (memb_In e l0) (Hl e (or_introl eq_refl))). cbn [negb]. apply IH. intros e' I. apply Hl. right. exact I.
+Qed.
+
+Definition Lk (R : rpath) (s s1 : state) : Prop := link_cands s1 R = link_cands s R /\ sym_same s s1.
+
+Lemma Lk_refl R s : Lk R s s.
+Proof. split; [reflexivity | apply sym_same_refl]. Qed.
+Lemma Lk_trans R s1 s2 s3 : Lk R s1 s2 -> Lk R s2 s3 -> Lk R s1 s3.
+Proof. intros [A1 A2] [B1 B2]. split; [congruence | eapply sym_same_trans; eauto]. Qed.
+
+Lemma link_cands_insert_absent R s p n nodes' :
+  node_at s p = None -> p <> [] -> (forall t, n <> NSym t) -> nodes' = insert p n (nodes s) ->
+  flat_map (fun e => match snd e with
+                     | NSym t => if underb R (fst e) && negb (eqb (fst e) R) then [(fst e, t)] else []
+                     | _ => [] end) nodes' = link_cands s R.
+Proof.
+  intros N NE NS ->. destruct p as [|c p]; [congruence|]. cbn in N. rewrite (insert_absent _ _ _ N).
+  rewrite flat_map_app. cbn [flat_map snd fst]. unfold link_cands.
+  destruct n as [| i | t |]; try (rewrite !app_nil_r; reflexivity). exfalso; eapply NS; eauto.
+Qed.
+
+Lemma Lk_set_dir R s p : node_at s p = None -> p <> [] -> Lk R s (set_node s p NDir).
+Proof.
+  intros N NE. split.
+  - unfold link_cands at 1. cbn [nodes set_node]. eapply link_cands_insert_absent; eauto. intros t; discriminate.
+  - apply dirs_added_sym_same. apply dirs_added_set. exact N.
+Qed.
+
+Lemma Lk_new_file R s p d : node_at s p = None -> p <> [] -> Lk R s (new_file s p d).
+Proof.
+  intros N NE. split.
+  - unfold link_cands at 1. cbn [nodes new_file]. eapply link_cands_insert_absent; eauto. intros t; discriminate.
+  - intros q t. destruct (eqb_spec q p) as [->|NQ].
+    + rewrite node_at_new_same by exact NE. rewrite N. split; discriminate.
+    + rewrite node_at_new_other by exact NQ. tauto.
+Qed.
+
+Lemma Lk_mkdirp R s rq : Lk R s (mkdirp R s rq).
+Proof.
+  induction rq as [|c rhead IH]; [apply Lk_refl|]. cbn [mkdirp].
+  destruct (node_at (mkdirp R s rhead) ((c :: rhead) ++ R)) eqn:N; [exact IH|].
+  eapply Lk_trans; [exact IH|]. apply Lk_set_dir; [exact N | discriminate].
+Qed.
+
+Lemma forallb_ext' {A} (f g : A -> bool) l : (forall a, f a = g a) -> forallb f l = forallb g l.
+Proof. intros E. induction l as [|a l IH]; cbn; [reflexivity | rewrite E, IH; reflexivity]. Qed.
+Lemma filter_ext' {A} (f g : A -> bool) l : (forall a, f a = g a) -> List.filter f l = List.filter g l.
+Proof. intros E. induction l as [|a l IH]; cbn; [reflexivity | rewrite E, IH; reflexivity]. Qed.
+
+Lemma leaving_Lk R s s1 : Lk R s s1 -> leaving s1 R = leaving s R.
+Proof.
+  intros [C SS]. unfold leaving, leaves_b. rewrite C.
+  assert (E : forall p, link_leaves s1 R p = link_leaves s R p).
+  { intros [|c d]; [reflexivity|]. unfold link_leaves, realpath.
+    rewrite (walk_lenient_sym_same s1 s (sym_same_sym _ _ SS)). reflexivity. }
+  rewrite (forallb_ext' _ (fun e => match link_leaves s R (fst e) with None => false | _ => true end)) by (intros e; rewrite E; reflexivity).
+  rewrite (filter_ext' _ (fun e => match link_leaves s R (fst e) with Some true => true | _ => false end)) by (intros e; rewrite E; reflexivity).
+  reflexivity.
+Qed.
+
 Section Benign4.
   Variable R : rpath.
 
@@ -1417,7 +1545,7 @@ Section Benign4.
     WF s -> node_at s R = Some NDir -> InoOk s ->
     plain (comps (m_name m)) -> fits s m ->
     exists s1,
-      step Repaired all R s m i = (OOk, s1) /\ WF s1 /\ node_at s1 R = Some NDir /\ InoOk s1 /\
+      step Repaired all R s m i = (OOk, s1) /\ Lk R s s1 /\ WF s1 /\ node_at s1 R = Some NDir /\ InoOk s1 /\
       (forall n d, m = MReg n d -> has_file s1 (rq_of m ++ R) d) /\
       (forall q e, off_path q m -> has_file s q e -> has_file s1 q e) /\
       (forall m2, (is_reg m -> ~ suffix (rq_of m) (rq_of m2)) -> (is_reg m2 -> ~ suffix (rq_of m2) (rq_of m)) ->
@@ -1437,7 +1565,9 @@ Section Benign4.
       assert (N1 : node_at (mkdirp R s rhead) ((c :: rhead) ++ R) = None) by (rewrite mkdirp_other; assumption).
       assert (I1 : InoOk (mkdirp R s rhead)).
       { eapply InoOk_dirs_added; [apply mkdirp_dirs_added | apply mkdirp_files | exact IO]. }
-      split; [apply step_reg; assumption|]. split; [|split; [|split; [|split; [|split]]]].
+      split; [apply step_reg; assumption|].
+      split; [eapply Lk_trans; [apply Lk_mkdirp | apply Lk_new_file; [exact N1 | discriminate]]|].
+      split; [|split; [|split; [|split; [|split]]]].
       + cbn [app]. apply new_file_WF; [apply mkdirp_WF; assumption | apply (D1 rhead (suffix_refl _)) | exact N1].
       + rewrite node_at_new_other; [apply (D1 [] (suffix_nil _))|].
         intros E2. apply (f_equal (@List.length _)) in E2. rewrite app_length in E2. cbn in E2. lia.
@@ -1466,7 +1596,7 @@ Section Benign4.
       assert (E' : comps n = rev rq) by (rewrite RQ; unfold rq_of; cbn [m_name]; rewrite rev_involutive; reflexivity).
       rewrite E' in PL.
       exists (mkdirp R s rq).
-      split; [apply step_dir; assumption|]. split; [|split; [|split; [|split; [|split]]]].
+      split; [apply step_dir; assumption|]. split; [apply Lk_mkdirp|]. split; [|split; [|split; [|split; [|split]]]].
       + apply mkdirp_WF; assumption.
       + apply (mkdirp_dir R s _ DR F [] (suffix_nil _)).
       + eapply InoOk_dirs_added; [apply mkdirp_dirs_added | apply mkdirp_files | exact IO].
@@ -1485,16 +1615,16 @@ Section Benign4.
     (forall m, In m ms -> plain (comps (m_name m)) /\ fits s m) ->
     consistent ms ->
     (forall q e, In (q, e) D -> has_file s q e /\ forall m, In m ms -> off_path q m) ->
-    exists s', untar_from Repaired all R s ms i = (OOk, s') /\
+    exists s', untar_from Repaired all R s ms i = (OOk, s') /\ Lk R s s' /\
       (forall q e, In (q, e) D -> has_file s' q e) /\
       (forall n d, In (MReg n d) ms -> has_file s' (rev (comps n) ++ R) d).
   Proof.
     induction ms as [|m ms IH]; intros s i D W DR IO HM CO HD.
-    - exists s. split; [reflexivity|]. split; [intros q e H; apply HD; exact H | intros n d []].
+    - exists s. split; [reflexivity|]. split; [apply Lk_refl|]. split; [intros q e H; apply HD; exact H | intros n d []].
     - destruct (HM m (or_introl eq_refl)) as [PL F]. destruct CO as [CP CO].
-      destruct (benign_step all s m i W DR IO PL F) as [s1 [ST [W1 [DR1 [IO1 [NEW [KEEP FITS]]]]]]].
+      destruct (benign_step all s m i W DR IO PL F) as [s1 [ST [LK1 [W1 [DR1 [IO1 [NEW [KEEP FITS]]]]]]]].
       set (D1 := match m with MReg n d => [(rq_of m ++ R, d)] | _ => [] end ++ D).
-      destruct (IH s1 (S i) D1 W1 DR1 IO1) as [s' [RUN [HD' HR']]].
+      destruct (IH s1 (S i) D1 W1 DR1 IO1) as [s' [RUN [LK' [HD' HR']]]].
       + intros m2 I2. destruct (HM m2 (or_intror I2)) as [PL2 F2]. split; [exact PL2|].
         destruct (CP m2 I2) as [K1 K2]. apply FITS; assumption.
       + exact CO.
@@ -1505,7 +1635,7 @@ Section Benign4.
           apply (K1 Logic.I). rewrite E. exact S.
         * destruct (HD q e I1) as [HF OFF]. split; [apply KEEP; [apply OFF; left; reflexivity | exact HF]|].
           intros m2 I2. apply OFF. right. exact I2.
-      + exists s'. split; [cbn [untar_from]; rewrite ST; exact RUN|]. split.
+      + exists s'. split; [cbn [untar_from]; rewrite ST; exact RUN|]. split; [eapply Lk_trans; eauto|]. split.
         * intros q e I1. apply HD'. unfold D1. apply in_or_app. right. exact I1.
         * intros n d [->|I1]; [|apply HR'; exact I1].
           apply HD'. unfold D1. apply in_or_app. left. left. unfold rq_of. reflexivity.
@@ -1514,15 +1644,18 @@ Section Benign4.
   (* C18, second clause: a benign archive is extracted completely; every regular member ends up under its
      name with its content, owner-readable and -writable *)
   Theorem benign_extracted ms s :
-    WF s -> node_at s R = Some NDir -> InoOk s ->
+    WF s -> node_at s R = Some NDir -> InoOk s -> leaving s R <> None ->
     (forall m, In m ms -> plain (comps (m_name m)) /\ fits s m) ->
     consistent ms ->
     exists s', untar R ms s = (OOk, s') /\
       forall n d, In (MReg n d) ms -> has_file s' (rev (comps n) ++ R) d.
   Proof.
-    intros W DR IO HM CO.
-    destruct (benign_run ms ms s 0 [] W DR IO HM CO) as [s' [RUN [_ HR]]]; [intros q e []|].
-    exists s'. split; [exact RUN | exact HR].
+    intros W DR IO LV HM CO.
+    destruct (benign_run ms ms s 0 [] W DR IO HM CO) as [s' [RUN [LK [_ HR]]]]; [intros q e []|].
+    exists s'. split; [|exact HR].
+    unfold untar, untar_gen. destruct (leaving s R) as [before|] eqn:L; [|congruence]. rewrite RUN.
+    cbn [cleanup]. rewrite (leaving_Lk R s s' LK), L.
+    rewrite filter_known_nil by (intros e I; exact I). reflexivity.
   Qed.
 End Benign4.
 
